@@ -7,7 +7,9 @@ use crate::types::{
 };
 use pretty::RcDoc;
 
-static KEYWORDS: [&str; 30] = [
+static KEYWORDS: [&str; 32] = [
+    "true",
+    "false",
     "import",
     "service",
     "func",
